@@ -109,10 +109,10 @@ def replay_witnesses(ctx):
 
 def exhaustive_specs(ctx, max_n, rerun_max_n, rerun_limit=40):
     """(n, concurrency, outcome assignment, rerun, order limit): ALL orders of the first round for every
-    n <= max_n (n = 4: concurrency absent / 2 only, to stay inside the time budget); with a rerun after
+    n <= max_n (n = 4: concurrency absent / 2 only and at most 200 orders each, to stay inside the time budget); with a rerun after
     the first round (reset on and off) for n <= rerun_max_n, at most `rerun_limit` orders each."""
     from harness import withitems_stream as ws
-    specs = [(n, conc, outs, None, None) for (n, conc, outs) in ws.exhaustive_cases(max_n)
+    specs = [(n, conc, outs, None, (200 if n >= 4 else None)) for (n, conc, outs) in ws.exhaustive_cases(max_n)
              if n < 4 or conc in (None, 2)]
     # with a rerun after the first round (only meaningful when something failed and nothing was cancelled)
     for (n, conc, outs) in ws.exhaustive_cases(rerun_max_n):
@@ -121,6 +121,8 @@ def exhaustive_specs(ctx, max_n, rerun_max_n, rerun_limit=40):
                 specs.append((n, conc, outs, {'reset': reset, 'when': 'quiescent'}, rerun_limit))
     rng = ctx.rng
     rng.shuffle(specs)
+    # deal the expensive specs (many orders: large n, no or a wide limit) evenly over the workers
+    specs.sort(key=lambda sp: -(sp[0] * 10 + (9 if sp[1] is None else min(sp[1], 8))))
     return specs
 
 
@@ -129,7 +131,7 @@ def correspond(ctx):
     replay_witnesses(ctx)
     k = 14
     specs = exhaustive_specs(ctx, ctx.n(2, 4), ctx.n(2, 3))
-    chunks = [{'n_cases': ctx.n(45, 500), 'specs': specs[i::k], 'limit': ctx.n(200, 340)} for i in range(k)]
+    chunks = [{'n_cases': ctx.n(45, 300), 'specs': specs[i::k], 'limit': ctx.n(200, 340)} for i in range(k)]
     par.run_parallel(ctx, 'harness.withitems_stream', 'run_both_chunk', chunks)
 
 
